@@ -63,4 +63,71 @@ CLIENTS = dict(
     cover=["return"],
 )
 
-ALLOC_CONTRACTS = [CLIENTS]
+N = "len(allocations)"
+# rows are distinct lists created by this call (before the schedule loop)
+ROWS_FRESH = (
+    f"forall(lambda r: implies(0 <= r and r < {N}, ref(allocations[r]) >= NREF0() and ref(allocations[r]) < NREF())) and "
+    f"forall(lambda r, q: implies(0 <= r and r < q and q < {N}, ref(allocations[r]) != ref(allocations[q])))"
+)
+BASE = [f"{N} == max_clients and max_clients >= 1", ROWS_FRESH]
+IN_ELEMENT = BASE + [
+    "forall(lambda r: implies(0 <= r and r < max_clients, ref(allocations[r]) < _nentry2))",
+    "ref(clients_executing_completing_task) >= _nentry2 and ref(any_task_completes_parent) >= _nentry2 and ref(clients_executing_completing_task) != ref(any_task_completes_parent)",
+    "join_point_id == _i2 + 1",
+]
+L0_ = "at('L3', len(allocations[0]))"  # row length when the schedule element starts
+
+
+def rows_after(c):
+    """row lengths after c entries of this element were dealt round-robin"""
+    return f"forall(lambda r: implies(0 <= r and r < max_clients, len(allocations[r]) == {L0_} + ({c}) // max_clients + (1 if r < ({c}) % max_clients else 0)))"
+
+
+ALLOCATIONS = dict(
+    target="esrally/driver/driver.py::Allocator.allocations",
+    prop="C02",
+    self_type="obj[Allocator]",
+    params={},
+    fields=ALLOC_FIELDS,
+    modules=["esrally/track/track.py"],
+    opaque={"CL": ALLOC_OPAQUE["CL"]},
+    lemmas={
+        "DM": dict(
+            vars={"c": "int", "m": "int"},
+            stmt="implies(c >= 0 and m >= 1, 0 <= c % m and c % m < m and ((c + 1) % m == c % m + 1 and (c + 1) // m == c // m if c % m + 1 < m else (c + 1) % m == 0 and (c + 1) // m == c // m + 1))",
+        ),
+    },
+    use=[("L4", "DM", {"c": "_i4", "m": "max_clients"})],
+    externals={"task.clients": CL, "sub_task.clients": CL},
+    locals={"allocations": "list[opt[list[any]]]", "clients_executing_completing_task": "list[int]", "any_task_completes_parent": "list[int]"},
+    loops={
+        0: dict(modifies_objs=["allocations"], inv=[f"{N} == max_clients", "forall(lambda r: implies(0 <= r and r < _i, ref(allocations[r]) >= NREF0() and ref(allocations[r]) < NREF() and len(allocations[r]) == 0))",
+                                                    "forall(lambda r, q: implies(0 <= r and r < q and q < _i, ref(allocations[r]) != ref(allocations[q])))"]),
+        1: dict(modifies_fresh=True, inv=BASE + [
+            "forall(lambda r: implies(0 <= r and r < max_clients, len(allocations[r]) == (1 if r < _i else 0)))",
+            "forall(lambda r: implies(0 <= r and r < _i, allocations[r][0] == next_join_point))",
+            "ref(next_join_point) >= NREF0() and next_join_point.id == 0"]),
+        2: dict(modifies_fresh=True, inv=BASE + [
+            "forall(lambda r: implies(0 <= r and r < max_clients, len(allocations[r]) == len(allocations[0]))) and len(allocations[0]) >= 1",
+            "forall(lambda r: implies(0 <= r and r < max_clients, allocations[r][len(allocations[0]) - 1] == next_join_point))",
+            "join_point_id == _i + 1 and ref(next_join_point) >= NREF0() and next_join_point.id == _i"]),
+        3: dict(modifies_fresh=True, inv=IN_ELEMENT + ["start_client_index >= 0", rows_after("start_client_index")]),
+        4: dict(modifies_fresh=True, inv=IN_ELEMENT + ["_i >= 0", rows_after("_i")]),
+        5: dict(modifies_fresh=True, inv=IN_ELEMENT + [
+            "forall(lambda r: implies(0 <= r and r < max_clients, len(allocations[r]) == at('L5', len(allocations[0])) - (0 if r < _i else 1)))"]),
+        6: dict(modifies_fresh=True, inv=BASE + [
+            "forall(lambda r: implies(0 <= r and r < max_clients, len(allocations[r]) == at('L6', len(allocations[0])) + (1 if r < _i else 0)))",
+            "forall(lambda r: implies(0 <= r and r < _i, allocations[r][at('L6', len(allocations[0]))] == next_join_point))",
+            "join_point_id == _i2 + 1 and ref(next_join_point) >= NREF0() and next_join_point.id == join_point_id"]),
+    },
+    returns="list[list[any]]",
+    ensures=[
+        # one row per client; the matrix is rectangular; every row ends with the same final join point, whose id is the number of schedule elements
+        "len(result) >= 1",
+        "forall(lambda r: implies(0 <= r and r < len(result), len(result[r]) == len(result[0])))",
+    ],
+    cover=["return"],
+)
+import os  # noqa: E402
+
+ALLOC_CONTRACTS = [CLIENTS] + ([ALLOCATIONS] if os.environ.get("VERIF_WIP") else [])  # allocations: work in progress, not claimed yet
